@@ -6,6 +6,7 @@
 package consim
 
 import (
+	"bytes"
 	"fmt"
 	"io"
 	"os"
@@ -596,6 +597,20 @@ func (n *simNode) boot() {
 		n.ticker = newSimTicker()
 		n.cs.SetTimeoutTicker(n.ticker)
 	}
+	if n.inc == 0 && s.cfg.Bool("torn_initial") {
+		// disk image of a node that was killed inside the very first write of its WAL (the
+		// initial #ENDHEIGHT marker that BaseWAL.OnStart logs into an empty head)
+		var buf bytes.Buffer
+		if err := cs.NewWALEncoder(&buf).Encode(&cs.TimedWALMessage{Time: time.Now().UTC(), Msg: cs.EndHeightMessage{Height: 0}}); err == nil && buf.Len() > 2 {
+			k := 1 + int(s.cfg.Int("torn_initial_k"))%(buf.Len()-1)
+			if err := os.MkdirAll(filepath.Dir(n.walFile()), 0o700); err == nil {
+				if _, serr := os.Stat(n.walFile()); os.IsNotExist(serr) {
+					_ = os.WriteFile(n.walFile(), buf.Bytes()[:k], 0o600)
+					s.env.Count("fault.wal_torn_initial_marker")
+				}
+			}
+		}
+	}
 	inner, err := cs.NewWAL(n.walFile(), s.walOptions()...)
 	if err != nil {
 		n.failure = "NewWAL: " + err.Error()
@@ -610,6 +625,14 @@ func (n *simNode) boot() {
 	n.wal = &walWrap{n: n, inner: inner, path: n.walFile()}
 	n.wal.noteSync()
 	n.cs.VerifSetWAL(n.wal)
+	if debugLog {
+		fi, _ := os.Stat(n.walFile())
+		var sz int64 = -1
+		if fi != nil {
+			sz = fi.Size()
+		}
+		fmt.Fprintf(os.Stderr, "PRESTART %s wal=%s size=%d torn=%v\n", n.name, n.walFile(), sz, headHasTear(n.walFile()))
+	}
 	if err := n.cs.Start(); err != nil {
 		n.mu.Lock()
 		n.failure = "consensus start: " + err.Error()
